@@ -353,6 +353,24 @@ def c13_positions(tier="quick", seed=0):
         wl, wc = (ln, cl + len(pre)) if ln == 1 else (ln, cl)
         if res != [wl, wc] and bad["throw"] is None:
             bad["throw"] = (tsrc, f"location {res}, the throw keyword is at {[wl, wc]}")
+        # ... followed by another throw statement (the location is this statement's, not the next one's), and a runtime error
+        # (reported where the failing expression starts, not at a throw statement compiled earlier)
+        for kind, stmt in (("throw-then-throw", "if (1) throw new Error('a'); throw new Error('b')"), ("runtime-error", "null.x; 1"),
+                           ("runtime-error-after-throw", "null.x; throw new Error('later')")):
+            if kind == "throw-then-throw":
+                want = [wl, wc + 7]
+            else:
+                want = [wl, wc]
+            prefix = "function early() { throw new Error('early') } " if kind != "throw-then-throw" else ""
+            t2 = prefix + pre + lead + stmt + post
+            if prefix and ln == 1:
+                want = [want[0], want[1] + len(prefix)]
+            try:
+                res = Context(time_limit=10).eval(t2)
+            except Exception as e:  # noqa
+                res = "!" + type(e).__name__
+            if res != want and bad["throw"] is None:
+                bad["throw"] = (t2, f"{kind}: location {res}, the failing statement is at {want}")
     # the other line terminators (CR, CR LF, LS, PS) in the trivia: the reported place is the character's under one of the two
     # sensible conventions -- only LF starts a line (the lexer's own), or every LineTerminator does with CR LF as one -- never a
     # line the text does not have
